@@ -146,6 +146,8 @@ func (vc *FuncVC) enterLoopHeader(st *State, fr *Frame, from, to *ssa.BasicBlock
 		if st.ghost["sections"].T != cut.sections {
 			vc.addOblig(st, "lock", lname+"/lock-neutral:sections", vc.lockTags(), eq(st.ghost["sections"].T, cut.sections))
 		}
+		st.event("back-edge %s", lname)
+		vc.addCover(st, lname+"/cover:back")
 		st.dead = true
 		return
 	}
@@ -377,8 +379,7 @@ func (vc *FuncVC) loopWrites(st *State, fr *Frame, lp *loop) *loopWriteSet {
 			vc.classifyStore(ws, x.Addr, lp, top)
 		case *ssa.MapUpdate:
 			mt := x.Map.Type().Underlying().(*types.Map)
-			ks, vs := w.sortOf(mt.Key()), w.sortOf(mt.Elem())
-			dn, dso, vn, vso := mapHeaps(ks, vs)
+			dn, dso, vn, vso := mapHeaps(w, mt)
 			if top && definedOutside(x.Map, lp) {
 				ws.writes = append(ws.writes, heapWrite{heap: dn, sort: dso, ref: x.Map}, heapWrite{heap: vn, sort: vso, ref: x.Map})
 			} else {
@@ -390,8 +391,7 @@ func (vc *FuncVC) loopWrites(st *State, fr *Frame, lp *loop) *loopWriteSet {
 			switch y := in.(type) {
 			case *ssa.MakeMap:
 				mt := y.Type().Underlying().(*types.Map)
-				ks, vs := w.sortOf(mt.Key()), w.sortOf(mt.Elem())
-				dn, dso, vn, vso := mapHeaps(ks, vs)
+				dn, dso, vn, vso := mapHeaps(w, mt)
 				ws.writes = append(ws.writes, heapWrite{heap: dn, sort: dso, freshOnly: true}, heapWrite{heap: vn, sort: vso, freshOnly: true})
 			case *ssa.MakeSlice:
 				es := w.sortOf(y.Type().Underlying().(*types.Slice).Elem())
@@ -448,8 +448,7 @@ func (vc *FuncVC) loopWrites(st *State, fr *Frame, lp *loop) *loopWriteSet {
 					}
 				case "delete":
 					mt := cc.Args[0].Type().Underlying().(*types.Map)
-					ks, vs := w.sortOf(mt.Key()), w.sortOf(mt.Elem())
-					dn, dso, _, _ := mapHeaps(ks, vs)
+					dn, dso, _, _ := mapHeaps(w, mt)
 					addWhole(dn, dso)
 				case "copy":
 					es := w.sortOf(cc.Args[0].Type().Underlying().(*types.Slice).Elem())
